@@ -426,3 +426,282 @@ Theorem C04_source_parser_train_model_params :
   Cli.params_kv SrcParser_train_model.src_parser_train_model.
 Proof. exact C18SourceParser_train_model.parser_train_model_params. Qed.
 Print Assumptions C04_source_parser_train_model_params.
+
+(* ==== the downstream clause: posterior samples, distance matrix, scores, selected plate ====
+   Model/Downstream.v: the input of every downstream stage as a function of the projection `downstream_input`, and one whole
+   iteration of the loop (`loop_iteration`: training -> sampler sweeps against recorded draws -> distance chunks, save, load,
+   concat, dense -> score chunks, save, load, concat -> selection with no policy or KPerSamplePlatePolicy k) composed of the
+   stage models of C08 / C07 / C06 / C16, for ANY prediction function of (posterior sample, row ids), ANY metric, ANY scorer.
+   Proofs/C04DownSrc.v: the same stages as the TRANSLATED functions of /repo (the src_ definitions), applied to the same projections. *)
+From Batchie Require Import Model.Downstream Proofs.C04Down Proofs.C04DownSrc.
+From Batchie Require Model.Scores Model.Policy Model.Gibbs Model.DistMat Generated.SrcScoring Generated.SrcScoringPolicy
+  Generated.SrcDistMat Generated.SrcGibbs Proofs.C06SourceCliScores Proofs.C07SourcePipeline.
+
+(* what score_chunk / select_next_plate, the policy, the predictions and training read of a screen are functions of the
+   projection *)
+Theorem C04_downstream_views_factor : forall rows,
+  scores_screen_of rows = dn_scores_screen (downstream_input rows) /\
+  policy_plates_of rows = dn_policy_plates (downstream_input rows) /\
+  pred_rows_of rows = dn_pred_rows (downstream_input rows) /\
+  train_input rows = dn_train (downstream_input rows).
+Proof. exact views_factor_full. Qed.
+Print Assumptions C04_downstream_views_factor.
+
+(* one whole iteration: posterior samples, dense distance matrix, combined scores and the selected plate are identical *)
+Theorem C04_loop_noninterference : forall (V : Type) (vzero : V) predict metric scorer orc r32 (c : loop_cfg) s1 s2,
+  same_except_masked s1 s2 ->
+  loop_iteration V vzero predict metric scorer orc r32 c s1 = loop_iteration V vzero predict metric scorer orc r32 c s2.
+Proof. exact loop_iteration_noninterference. Qed.
+Print Assumptions C04_loop_noninterference.
+
+(* ... because every stage reads the projection only (training through subset_observed of it) *)
+Theorem C04_loop_reads_projection : forall (V : Type) (vzero : V) predict metric scorer orc r32 (c : loop_cfg) rows,
+  loop_iteration V vzero predict metric scorer orc r32 c rows =
+  (dor th <- (match dn_train (downstream_input rows) with
+              | Some o => dor t <- sdc_add orc r32 [] o;
+                          match gibbs_data t with
+                          | None => Err 3
+                          | Some d => match run_sweeps (lc_g c) d orc (lc_s0 c) (lc_vals c) with
+                                      | Some th => Ok th | None => Err 9 end
+                          end
+              | None => match run_sweeps (lc_g c) {| Gibbs.d_y := []; Gibbs.d_cl := []; Gibbs.d_dd1 := []; Gibbs.d_dd2 := [] |}
+                                orc (lc_s0 c) (lc_vals c) with
+                        | Some th => Ok th | None => Err 9 end
+              end);
+   dor dm <- loop_dist V vzero predict metric c th (downstream_input rows);
+   dor h <- loop_scores V scorer c th dm (downstream_input rows);
+   dor sel <- loop_select c h (downstream_input rows);
+   Ok (th, dm, h, sel)).
+Proof. exact loop_iteration_factors. Qed.
+Print Assumptions C04_loop_reads_projection.
+
+(* the posterior samples come from sweeps on exactly the documented training data of the observed rows *)
+Theorem C04_loop_thetas_from_observed : forall orc r32 (c : loop_cfg) rows th,
+  loop_thetas orc r32 c rows = Ok th ->
+  exists t d, train_sdc orc r32 rows = Ok t /\ gibbs_data t = Some d /\
+    t = map (fun r => {| tr_y := ologit orc (oclip (cast32 r32 (t_obs r))); tr_cl := t_sample r;
+                         tr_d1 := nth 0 (t_treats r) 0; tr_d2 := nth 1 (t_treats r) 0 |}) (filter t_mask rows) /\
+    Gibbs.d_cl d = map t_sample (filter t_mask rows) /\
+    run_sweeps (lc_g c) d orc (lc_s0 c) (lc_vals c) = Some th.
+Proof. exact loop_thetas_data. Qed.
+Print Assumptions C04_loop_thetas_from_observed.
+
+(* ---- the same of the translated source, stage by stage ---- *)
+(* training as train_model.main calls it: translated guard around the translated _add_observations on a fresh object *)
+Theorem C04_source_train_stage : forall orc r32 rows,
+  src_stage_train orc r32 rows = dor t <- train_sdc orc r32 rows; Ok (legacy_of t).
+Proof. exact src_stage_train_is_model. Qed.
+Print Assumptions C04_source_train_stage.
+
+(* the interaction model's training stage: (lookup, wrapped object) = the fully repaired train_int; equal for both screens *)
+Theorem C04_source_train_stage_interaction : forall orc r32 arity rows,
+  src_stage_train_int orc r32 arity rows
+  = dor s <- train_int orc r32 true true true arity rows; Ok (i_lookup s, legacy_of (i_train s)).
+Proof. exact src_stage_train_int_is_model. Qed.
+Print Assumptions C04_source_train_stage_interaction.
+
+Theorem C04_source_train_stage_interaction_noninterference : forall orc r32 arity s1 s2, same_except_masked s1 s2 ->
+  src_stage_train_int orc r32 arity s1 = src_stage_train_int orc r32 arity s2.
+Proof. exact src_stage_train_int_noninterference. Qed.
+Print Assumptions C04_source_train_stage_interaction_noninterference.
+
+(* posterior samples: the translated mcmc_step (Generated/SrcGibbs.v), its blocks run by ANY runner that is handed the data
+   the translated training stored (C08's translated blocks are one), against any recorded draws *)
+Theorem C04_source_thetas_noninterference : forall run orc r32 s0 vals s1 s2, same_except_masked s1 s2 ->
+  src_stage_thetas run orc r32 s0 vals s1 = src_stage_thetas run orc r32 s0 vals s2.
+Proof. exact src_stage_thetas_noninterference. Qed.
+Print Assumptions C04_source_thetas_noninterference.
+
+Theorem C04_source_thetas_data : forall run orc r32 s0 vals rows,
+  src_stage_thetas run orc r32 s0 vals rows =
+  dor t <- train_sdc orc r32 rows;
+  match gibbs_data t with
+  | None => Err 3
+  | Some d => match src_sweeps run d 0 s0 vals with Some th => Ok th | None => Err 9 end
+  end.
+Proof. exact src_stage_thetas_data. Qed.
+Print Assumptions C04_source_thetas_data.
+
+(* distance matrix: C07's composition of the translated calculate_pairwise_distance_matrix_on_predictions / save / load / concat /
+   to_dense, predictions any function of (sample, row ids) *)
+Theorem C04_source_distance_noninterference : forall (V : Type) (vzero : V) visz (T : Type) (dflt : T) predict metric th s1 s2 c order,
+  same_except_masked s1 s2 ->
+  src_stage_dist V vzero visz T dflt predict metric th s1 c order = src_stage_dist V vzero visz T dflt predict metric th s2 c order.
+Proof. exact src_stage_dist_noninterference. Qed.
+Print Assumptions C04_source_distance_noninterference.
+
+(* scores: translated score_chunk per chunk, file round trip, translated ChunkedScoresHolder.concat - any scorer, chunk count,
+   chunk order, batch *)
+Theorem C04_source_scores_noninterference : forall scorer s1 s2 rng batch n order, same_except_masked s1 s2 ->
+  src_stage_scores scorer s1 rng batch n order = src_stage_scores scorer s2 rng batch n order.
+Proof. exact src_stage_scores_noninterference. Qed.
+Print Assumptions C04_source_scores_noninterference.
+
+Theorem C04_source_scores_stage : forall (V : Type) (scorer : list Gibbs.st -> list (list V) -> Scores.scorer_fn) c th dm rows rng,
+  src_stage_scores (scorer th dm) rows rng (lc_batch c) (lc_schunks c) (lc_sorder c)
+  = loop_scores V scorer c th dm (downstream_input rows).
+Proof. exact src_stage_scores_is_model. Qed.
+Print Assumptions C04_source_scores_stage.
+
+(* selection: translated select_next_plate with no policy / any policy function ... *)
+Theorem C04_source_select_noninterference : forall policy h s1 s2 batch rng, same_except_masked s1 s2 ->
+  src_stage_select policy h s1 batch rng = src_stage_select policy h s2 batch rng.
+Proof. exact src_stage_select_noninterference. Qed.
+Print Assumptions C04_source_select_noninterference.
+
+Theorem C04_source_select_stage : forall policy h rows batch rng,
+  src_stage_select policy h rows batch rng = Scores.select_next policy (dn_scores_screen (downstream_input rows)) batch h.
+Proof. exact src_stage_select_is_model. Qed.
+Print Assumptions C04_source_select_stage.
+
+(* ... and with KPerSamplePlatePolicy(k): C16's translation, a Plate = (id, sample ids of its rows), is_observed = all mask bits *)
+Theorem C04_source_select_k_noninterference : forall k h s1 s2 batch rng, same_except_masked s1 s2 ->
+  src_stage_select_k k h s1 batch rng = src_stage_select_k k h s2 batch rng.
+Proof. exact src_stage_select_k_noninterference. Qed.
+Print Assumptions C04_source_select_k_noninterference.
+
+(* the whole iteration composed of the translations *)
+Theorem C04_source_loop_noninterference : forall (V : Type) (vzero : V) visz run predict metric scorer orc r32 (c : loop_cfg) s1 s2,
+  same_except_masked s1 s2 ->
+  src_loop_iteration V vzero visz run predict metric scorer orc r32 c s1
+  = src_loop_iteration V vzero visz run predict metric scorer orc r32 c s2.
+Proof. exact src_loop_iteration_noninterference. Qed.
+Print Assumptions C04_source_loop_noninterference.
+
+(* ---- the four command-line steps: the translated main() functions (Generated/SrcCli.v) run on two file systems whose
+   screens differ only behind the mask write the same files.  train_model: any model class / sampler; the other three
+   with the library calls standing for the translated library functions. ---- *)
+Theorem C04_source_cli_train_model_noninterference :
+  forall Sp Pa Mo Th fs1 fs2 from_ids set_space construct new_holder add_obs sample params a, fs_agree fs1 fs2 ->
+  SrcCli.src_cli_train_model _ _ Sp Pa Mo Th (tm_lib_fs Sp Pa Mo Th fs1 from_ids set_space construct new_holder add_obs sample) params a
+  = SrcCli.src_cli_train_model _ _ Sp Pa Mo Th (tm_lib_fs Sp Pa Mo Th fs2 from_ids set_space construct new_holder add_obs sample) params a.
+Proof. exact src_cli_train_model_noninterference. Qed.
+Print Assumptions C04_source_cli_train_model_noninterference.
+
+(* with SparseDrugCombo, what sampling.sample is handed holds exactly the training trips of the observed rows *)
+Theorem C04_source_cli_train_model_sdc :
+  forall Sp Pa X Th fs from_ids set_space (construct : Pa -> result X) new_holder sample orc r32 params a,
+  SrcCli.src_cli_train_model _ _ Sp Pa (X * legacy) Th
+    (tm_lib_fs Sp Pa (X * legacy) Th fs from_ids set_space (fun pa => dor x <- construct pa; Ok (x, legacy_of [])) new_holder
+       (fun m d => dor w <- SrcTrain.src_add_observations legacy (SrcTrain.src_sdc_add_observations orc r32) (snd m) d; Ok (fst m, w))
+       sample) params a
+  = dor s <- fs (Cli.tm_data a);
+    dor sp <- from_ids (pred_rows_of s);
+    dor x <- construct (set_space params sp);
+    dor holder <- new_holder (Cli.tm_n_samples a);
+    dor t <- train_sdc orc r32 s;
+    dor results <- sample (x, legacy_of t) holder (Cli.tm_seed a) (Some (Cli.tm_n_chains a)) (Some (Cli.tm_chain_index a))
+                     (Some (Cli.tm_n_burnin a)) (Some (Cli.tm_thin a)) (Cli.tm_progress a);
+    Ok [(Cli.tm_output a, results)].
+Proof. exact src_cli_train_model_sdc_trains. Qed.
+Print Assumptions C04_source_cli_train_model_sdc.
+
+Theorem C04_source_cli_calculate_distance_matrix_noninterference :
+  forall (V : Type) (vzero : V) visz (T : Type) (dflt : T) predict fs1 fs2 load_thetas mk_metric a, fs_agree fs1 fs2 ->
+  SrcCli.src_cli_calculate_distance_matrix _ _ _ _ (cd_lib_fs V vzero visz T dflt predict fs1 load_thetas mk_metric) a
+  = SrcCli.src_cli_calculate_distance_matrix _ _ _ _ (cd_lib_fs V vzero visz T dflt predict fs2 load_thetas mk_metric) a.
+Proof. exact src_cli_calculate_distance_matrix_noninterference. Qed.
+Print Assumptions C04_source_cli_calculate_distance_matrix_noninterference.
+
+Theorem C04_source_cli_calculate_scores_noninterference :
+  forall (Th Dm : Type) fs1 fs2 mk_scorer load_thetas concat_thetas load_dist concat_dist mix a, fs_agree fs1 fs2 ->
+  SrcCli.src_cli_calculate_scores _ _ _ _ _ _
+    (C06SourceCliScores.cs_scores_lib Th Dm (scores_fs fs1) mk_scorer load_thetas concat_thetas load_dist concat_dist) mix a
+  = SrcCli.src_cli_calculate_scores _ _ _ _ _ _
+    (C06SourceCliScores.cs_scores_lib Th Dm (scores_fs fs2) mk_scorer load_thetas concat_thetas load_dist concat_dist) mix a.
+Proof. exact src_cli_calculate_scores_noninterference. Qed.
+Print Assumptions C04_source_cli_calculate_scores_noninterference.
+
+Theorem C04_source_cli_select_next_plate_noninterference : forall fs1 fs2 mk_policy load_scores mix a, fs_agree fs1 fs2 ->
+  SrcCli.src_cli_select_next_plate _ _ _ _ (C06SourceCliScores.sn_scores_lib (scores_fs fs1) mk_policy load_scores) mix a
+  = SrcCli.src_cli_select_next_plate _ _ _ _ (C06SourceCliScores.sn_scores_lib (scores_fs fs2) mk_policy load_scores) mix a.
+Proof. exact src_cli_select_next_plate_noninterference. Qed.
+Print Assumptions C04_source_cli_select_next_plate_noninterference.
+
+(* non-vacuity: on the witness screens (observed plate 0, masked plate 1 holding 0.75 / NaN) the translated stages run: the
+   size-like scorer is handed plate 1 with its row, the holder has one slot, plate 1 is selected - without a policy and with
+   KPerSamplePlatePolicy(1); with k = 2 the only sample has too few plates and nothing is eligible *)
+Example C04_source_downstream_example :
+  let sc : Scores.scorer_fn := fun ps => map (fun p => (fst p, Z.of_nat (length (snd p)))) ps in
+  match src_stage_scores sc w_rows (Some tt) [] 2 [0; 1], src_stage_scores sc w_rows' (Some tt) [] 2 [0; 1] with
+  | Ok h, Ok h' =>
+      Scores.h_slots h = [(1, 1)] /\ h' = h /\
+      src_stage_select None h w_rows [] (Some tt) = Ok (Some 1) /\
+      src_stage_select_k 1 h w_rows' [] (Some tt) = Ok (Some 1) /\
+      src_stage_select_k 2 h w_rows [] (Some tt) = Ok None /\
+      policy_plates_of w_rows' = [((0, [0; 0; 0; 0]), true); ((1, [0]), false)]
+  | _, _ => False
+  end.
+Proof. vm_compute. repeat split; reflexivity. Qed.
+
+(* ==== the third shipped BayesianModel subclass: ComboGridFactorModel (models/grid_combo.py; variational, selectable with --model).
+   `src_grid_add_observations` is its whole method _add_observations re-translated on every run (configuration C04_GRID_ADD ->
+   Generated/SrcTrainGrid.v); the six numpy arrays of the object are six lists, [grid_cols st] the object holding the training
+   entries st; grid_helper.unpack_data(use_mask=True) is a primitive: row-wise over the rows with mask, by ANY per-row function u
+   of (sample id, treatment ids) - Model/Train.v, last part. ==== *)
+From Batchie Require Import Generated.SrcTrainGrid Proofs.C04SourceGrid.
+
+Theorem C04_model_is_source_grid_add_observations : forall (C : Type) (u : unpack_fn C) (st : list (gtrip C)) (rows : list trow),
+  (let '(s, c, e, d, f, y) := grid_cols st in src_grid_add_observations C u s c e d f y rows)
+  = dor t <- grid_inner u st rows; Ok (grid_cols t).
+Proof. exact src_grid_add_observations_is_model. Qed.
+Print Assumptions C04_model_is_source_grid_add_observations.
+
+Theorem C04_model_is_source_grid_add : forall (C : Type) (u : unpack_fn C) (st : list (gtrip C)) (rows : list trow),
+  src_add_observations _
+    (fun (self : list Z * list C * list C * list Z * list Z * list oval) d =>
+       let '(s, c, e, dd, f, y) := self in src_grid_add_observations C u s c e dd f y d)
+    (grid_cols st) rows
+  = dor t <- grid_add u st rows; Ok (grid_cols t).
+Proof. exact src_grid_add_is_model. Qed.
+Print Assumptions C04_model_is_source_grid_add.
+
+Theorem C04_train_noninterference_grid : forall (C : Type) (u : unpack_fn C) s1 s2,
+  same_except_masked s1 s2 -> train_grid u s1 = train_grid u s2.
+Proof. exact train_grid_noninterference. Qed.
+Print Assumptions C04_train_noninterference_grid.
+
+(* one entry per observed row, in order: the row's unpacked ids / concentrations and clip(y, 0, 1); accepted whenever no observed
+   value is negative or NaN *)
+Theorem C04_trained_exactly_once_grid : forall (C : Type) (u : unpack_fn C) rows,
+  (forall t, train_grid u rows = Ok t ->
+     t = map (fun r => {| gt_u := u (t_sample r) (t_treats r); gt_y := oclip_at 0%Qc 1%Qc (t_obs r) |}) (filter t_mask rows)) /\
+  ((forall r, In r rows -> t_mask r = true -> o_nonneg (t_obs r) = true) -> exists t, train_grid u rows = Ok t).
+Proof. exact train_grid_exactly_once. Qed.
+Print Assumptions C04_trained_exactly_once_grid.
+
+Theorem C04_refuses_grid : forall (C : Type) (u : unpack_fn C) (st : list (gtrip C)) rows r, In r rows ->
+  (t_mask r = false -> grid_add u st rows = Err 1) /\
+  ((o_negative (t_obs r) = true \/ t_obs r = ONaN) ->
+     (exists t, grid_add u st rows = Err t) /\ (t_mask r = true -> exists t, train_grid u rows = Err t)).
+Proof.
+  exact (fun C u st rows r Hi => conj (grid_refuses_masked C u st rows r Hi) (grid_refuses_negative_nan C u st rows r Hi)).
+Qed.
+Print Assumptions C04_refuses_grid.
+
+Example C04_grid_example :
+  let u : unpack_fn unit := fun s t => (s, nth 0 t 0, nth 1 t 0, tt, tt) in
+  option_map (map (fun t => (gt_u t, match gt_y t with OFin q => Some (this q) | _ => None end)))
+    (match train_grid u w_rows' with Ok t => Some t | Err _ => None end)
+  = Some [((0, 0, -1, tt, tt), Some (1 # 2)%Q); ((0, -1, 1, tt, tt), Some (1 # 2)%Q); ((0, 0, 1, tt, tt), Some (1 # 4)%Q);
+          ((0, -1, -1, tt, tt), Some (1 # 2)%Q)]
+  /\ (let '(s, c, e, d, f, y) := grid_cols (C := unit) [] in src_grid_add_observations unit u s c e d f y w_rows') = Err 2.
+Proof. vm_compute. split; reflexivity. Qed.
+
+(* ==== "the data handed to the model": the observed subset's rows are identical (C04_downstream_frame, train_input); its
+   computed attribute single_treatment_effects is NOT, as coded - the parent's table is built from all rows, masked included
+   (witness: an observed single-agent well 0.5 and a masked replicate holding 0.5 / 1 give the observed row the effect 0.5 / 0.75).
+   No shipped model reads the attribute, so the training arrays and everything downstream are unaffected; computed from the
+   observed rows only it would be blind. ==== *)
+From Batchie Require Import Proofs.C04View.
+Theorem C04_handed_view_single_effects_refuted :
+  exists arity s1 s2, same_except_masked s1 s2 /\
+    subset_observed_single_effects arity s1 = Some [[OFin v_half; OFin 1%Qc]] /\
+    subset_observed_single_effects arity s2 = Some [[OFin (Q2Qc (3 # 4)); OFin 1%Qc]].
+Proof. exact handed_view_single_effects_refuted. Qed.
+Print Assumptions C04_handed_view_single_effects_refuted.
+
+Theorem C04_handed_view_single_effects_repaired : forall arity s1 s2, same_except_masked s1 s2 ->
+  subset_observed_single_effects_repaired arity s1 = subset_observed_single_effects_repaired arity s2.
+Proof. exact handed_view_single_effects_repaired. Qed.
+Print Assumptions C04_handed_view_single_effects_repaired.
